@@ -333,7 +333,14 @@ class Check:
         for kid, (k, n) in sorted(self.known_hits.items()):
             print("KNOWN-FINDING: property=%s %s [%s, %d witnesses this run]" % (self.pid, k["what_fails"], kid, n))
         paths = []
-        for i, (summary, replay) in enumerate(self.violations[:20]):
+        percls = {}
+        kept = []
+        for summary, replay in self.violations:      # a few replays of every class, 60 in total
+            c = re.sub(r'[0-9]+', 'N', summary.split(' | ')[0])[:160]
+            if percls.get(c, 0) < 3 and len(kept) < 60:
+                percls[c] = percls.get(c, 0) + 1
+                kept.append((summary, replay))
+        for i, (summary, replay) in enumerate(kept):
             os.makedirs(rdir, exist_ok=True)
             path = os.path.join(rdir, "%d.json" % i)
             with open(path, "w") as fh:
